@@ -3,7 +3,7 @@
 # Confirms a sub-agent's seeded change (tests pass with it, demo fails with it and passes without), stores it under
 # /verif/seeded/<ID>/, runs the quick check(s) against it in /repo and reverts. Prints a summary.
 ID="$1"; shift; CHECKS="${@:-$ID}"
-TAG="${SEEDTAG:-seed}"; SUF="${SEEDSUF:-}"; WT=/tmp/$TAG-$ID; OUT=/tmp/$TAG-$ID-out; DST=/verif/seeded/$ID$SUF
+TAG="${SEEDTAG:-seed}"; SUF="${SEEDSUF:-}"; WT=/tmp/$TAG-$ID; OUT=${SEEDOUT:-/tmp/$TAG-$ID-out}; DST=/verif/seeded/$ID$SUF
 [ -f $OUT/patch.diff ] || { echo "no patch for $ID"; exit 2; }
 git -C /repo apply --check $OUT/patch.diff || { echo "PATCH DOES NOT APPLY to /repo HEAD"; exit 2; }
 # own scratch worktree at current HEAD with the patch
